@@ -245,17 +245,19 @@ PROPS["C03"] = {
 PROPS["C07"] = {
     "level": "model_checking",
     "harnesses": [
-        {"name": "c07_election_2nodes", "fn": "c07_election", "params": {"quick": {"secondaries": 1, "triggers": 1, "deviations": 2, "budget": 600}, "thorough": {"secondaries": 1, "triggers": 1, "deviations": 2, "budget": 600}}, "budget_s": {"quick": 900, "thorough": 7200}},
+        {"name": "c07_election_2nodes", "fn": "c07_election", "params": {"quick": {"secondaries": 1, "triggers": 1, "deviations": 1, "budget": 600}, "thorough": {"secondaries": 1, "triggers": 1, "deviations": 2, "budget": 600}}, "budget_s": {"quick": 900, "thorough": 7200}},
         {"name": "c07_pause_recheck", "covers": ["pause.demoted-after-acks"]},
+        {"name": "c07_takeover_2nodes", "fn": "c07_election", "params": {"quick": {"secondaries": 1, "triggers": 1, "deviations": 2, "budget": 600, "prim": 1}}},
+        {"name": "c07_takeover_3nodes", "fn": "c07_election", "params": {"quick": {"secondaries": 2, "triggers": 1, "deviations": 1, "budget": 400, "prim": 1}, "thorough": {"secondaries": 2, "triggers": 1, "deviations": 2, "budget": 400, "prim": 1}}},
         {"name": "c07_election_3nodes", "fn": "c07_election", "params": {"quick": {"secondaries": 2, "triggers": 1, "deviations": 0, "budget": 400}, "thorough": {"secondaries": 2, "triggers": 1, "deviations": 1, "budget": 400}}, "budget_s": {"quick": 900, "thorough": 7200}},
         {"name": "c07_rival_claim_2nodes", "fn": "c07_election", "params": {"quick": {"secondaries": 1, "triggers": 1, "deviations": 2, "budget": 600, "war": 1, "early": 2}, "thorough": {"secondaries": 1, "triggers": 1, "deviations": 3, "budget": 600, "war": 1, "early": 3}}, "covers": ["early-wake-up"]},
         {"name": "c07_election_2nodes_early_polls", "fn": "c07_election", "params": {"quick": {"secondaries": 1, "triggers": 1, "deviations": 1, "budget": 600, "early": 1}, "thorough": {"secondaries": 1, "triggers": 1, "deviations": 2, "budget": 600, "early": 2}}, "covers": ["early-wake-up"], "budget_s": {"quick": 900, "thorough": 7200}},
         {"name": "c07_election_2nodes_simultaneous", "fn": "c07_election", "params": {"quick": {"secondaries": 1, "triggers": 2, "deviations": 1, "budget": 600}, "thorough": {"secondaries": 1, "triggers": 2, "deviations": 1, "budget": 600}}, "budget_s": {"quick": 900, "thorough": 7200}},
     ],
-    "bounds": {"quick": "cluster of 2 nodes (primary n1 older than n2) with the real start_election / election_eval / election_win / SetPrimary code; every connection handler is its own thread in cooperative mode (runs until it finishes or sleeps in an election wait loop), the real replication loops are polled, the supervisor arms election-win / primary / leave are mirrored (12 lines); triggers: debug force-election on a solver-chosen node, or on two nodes at once, or a secondary claiming the primary role while the primary is alive (`election win`, what the timeout branches of start_election do: the primary must win the role back and every node must name it again); in the *_early_polls / rival_claim harnesses a handler sleeping in a wait loop may also wake up (2 ms poll) while lines are still in flight, up to 2 times (fewer than the 6 ticks of the election timeout used there); delivery order: dedicated threads first, then connections in link order, with up to 2 (1 for simultaneous triggers) solver-chosen deviations to any other enabled event; a sleeping handler takes a timer tick only when nothing can be delivered; NUN_ELECTION_TIMEOUT = 2 ticks; local lemma (c07_pause_recheck): one candidate whose candidacy is acknowledged and which is turned secondary at a solver-chosen pause of start_election must not claim the primary role afterwards; at quiescence (within 600 scheduler steps; the longest run observed takes 161): exactly one primary, it is the older node, the other is secondary, both cluster-states name it",
+    "bounds": {"quick": "cluster of 2 nodes (primary n1 older than n2) with the real start_election / election_eval / election_win / SetPrimary code; every connection handler is its own thread in cooperative mode (runs until it finishes or sleeps in an election wait loop), the real replication loops are polled, every node runs its REAL supervisor coroutine (start_replication_supervisor; only the TCP client loop start_replication is a stub that hands the connection to the harness); take-over variants: an older node n1 has joined a cluster led by n2 (2 and 3 nodes) and wins the forced election, the deposed primary stays; triggers: debug force-election on a solver-chosen node, or on two nodes at once, or a secondary claiming the primary role while the primary is alive (`election win`, what the timeout branches of start_election do: the primary must win the role back and every node must name it again); in the *_early_polls / rival_claim harnesses a handler sleeping in a wait loop may also wake up (2 ms poll) while lines are still in flight, up to 2 times (fewer than the 6 ticks of the election timeout used there); delivery order: dedicated threads first, then connections in link order, with up to 1 (quick; 2 thorough) solver-chosen deviations (2 in the rival-claim and take-over harnesses) to any other enabled event; a sleeping handler takes a timer tick only when nothing can be delivered; NUN_ELECTION_TIMEOUT = 2 ticks; local lemma (c07_pause_recheck): one candidate whose candidacy is acknowledged and which is turned secondary at a solver-chosen pause of start_election must not claim the primary role afterwards; at quiescence (within 600 scheduler steps; the longest run observed takes 161): exactly one primary, it is the older node, the other is secondary, both cluster-states name it",
                "thorough": "same"},
     "outside": "3-node clusters beyond the default delivery order (c07_election_3nodes: one order per trigger node; the forced election at the youngest node is the recorded finding C07-3nodes-youngest-trigger); node joins and primary death (need the supervisor's connection management, which is not sliced); lock-level preemption inside handlers",
-    "assumptions": ["environment shims", "cooperative scheduling: handlers are not preempted between sleeps", "the link pump mirrors handle_client / start_replication, the supervisor arms are mirrored"],
+    "assumptions": ["environment shims", "cooperative scheduling: handlers are not preempted between sleeps", "the link pump mirrors handle_client / start_replication"],
 }
 
 def _c18(name, q, t=None, covers=("snapshot.done",), thorough_only=False, budget=(900, 7200)):
